@@ -3,7 +3,7 @@ import ast
 
 from tfsa.flow import Flow, walk_terms
 from tfsa.loader import own_nodes, AnalysisError
-from tfsa.pointsto import PointsTo, is_sorted_items_copy, STAR, ELEM
+from tfsa.pointsto import PointsTo, is_sorted_items_copy, sorted_copy_info, STAR, ELEM
 from tfsa.reach import ReachDefs
 from tfsa.report import norm
 from tfsa.resolve import const_str
@@ -165,17 +165,17 @@ def key_certainly_present(ctx, pt, ins):
 
 
 class SortEvent:
-    def __init__(self, fn, stmt, target, src):
-        self.fn, self.stmt, self.target, self.src = fn, stmt, target, src
+    def __init__(self, fn, stmt, target, src, deep=False):
+        self.fn, self.stmt, self.target, self.src, self.deep = fn, stmt, target, src, deep
 
 
 def sort_events(ctx, pt, fn):
     out = []
     for n in own_nodes(fn.node):
         if isinstance(n, ast.Assign) and len(n.targets) == 1:
-            x = is_sorted_items_copy(ctx.res, n.value, fn, fn.module)
-            if x is not None:
-                out.append(SortEvent(fn, n, n.targets[0], x))
+            info = sorted_copy_info(ctx.res, n.value, fn, fn.module)
+            if info is not None:
+                out.append(SortEvent(fn, n, n.targets[0], info[0], info[1]))
     return out
 
 
@@ -183,9 +183,10 @@ def is_sorted_value(ctx, pt, expr, fn, at_node, depth=0):
     """The value of expr at CFG node at_node is a freshly re-keyed dictionary on every path."""
     if depth > 5:
         return False
-    if isinstance(expr, ast.Call):
+    if isinstance(expr, (ast.Call, ast.DictComp)):
         if is_sorted_items_copy(ctx.res, expr, fn, fn.module) is not None:
             return True
+    if isinstance(expr, ast.Call):
         tg = ctx.res.call_targets(expr, fn)
         pk = [t[1] for t in tg if t[0] == "pkg"]
         if pk and len(pk) == len([t for t in tg if t[0] != "umeth"]):
@@ -282,10 +283,20 @@ def canonical_order(ctx, pt, site):
             src_objs = pt.pts(ev.src, ev.fn)
             if src_objs and (src_objs & objs):
                 cands.append(ev)
+            elif ev.deep and src_objs:
+                # a recursive sort of an enclosing dictionary also orders this one
+                for pre in range(len(p)):
+                    if src_objs & paths.get(p[:pre], set()):
+                        cands.append(ev)
+                        break
         verdict = None
         reasons = []
         for ev in cands:
-            ok, why = check_sort_event(ctx, pt, site, ev, p, objs, all_ins, helpers, kp)
+            evp = p
+            if ev.deep and not (pt.pts(ev.src, ev.fn) & objs):
+                evp = next((p[:pre] for pre in range(len(p)) if pt.pts(ev.src, ev.fn) & paths.get(p[:pre], set())), p)
+            ok, why = check_sort_event(ctx, pt, site, ev, evp, objs | paths.get(evp, set()), all_ins, helpers, kp) if evp == p else \
+                check_sort_event(ctx, pt, site, ev, evp, paths.get(evp, set()), all_ins, helpers, kp, nested=objs)
             if ok:
                 verdict = (ev, why)
                 break
@@ -304,8 +315,10 @@ def canonical_order(ctx, pt, site):
     return nob
 
 
-def check_sort_event(ctx, pt, site, ev, path, objs, all_ins, helpers, kp):
+def check_sort_event(ctx, pt, site, ev, path, objs, all_ins, helpers, kp, nested=None):
     fn, call, obj, how = site
+    if nested:
+        objs = set(objs) | set(nested)
     g = C.cfg_of(fn)
     dnode = C.stmt_node(ctx, fn, call)
     last_key = path[-1] if path else None
